@@ -104,7 +104,12 @@ def gen_cases(tier, seed, ctx):
                     hdrs, body = DG.respond(B, ranges, boundary=bnd, quote=rnd.random() < 0.3,
                                             extra_headers=xhc,
                                             hdr_spelling=rnd.choice([b'Content-Range', b'content-range', b'CONTENT-RANGE']),
-                                            first_crlf=rnd.random() < 0.7)
+                                            first_crlf=rnd.random() < 0.7,
+                                            # part headers of DIFFERENT lengths (the first longer than the later ones) and bytes behind
+                                            # the closing delimiter (an epilogue, RFC 2046 5.1.1): never in the exhaustively cut family
+                                            first_extra=() if (first and tname == 'zero') else rnd.choice([(), (), (b'X-Only-First: ' + b'z' * rnd.choice([10, 70]),)]),
+                                            later_plain=(not (first and tname == 'zero')) and rnd.random() < 0.4,
+                                            epilogue=b'' if (first and tname == 'zero') else rnd.choice([b'', b'', b'\r\n\r\n\r\n', b'\r\n\r\nthis is the epilogue\r\n']))
                     nb = len(body)
                     if small:
                         ex = first and tname == 'zero'
